@@ -272,6 +272,39 @@ async fn peer_script(peer: &mut Peer, net: &crate::net::NetHandle, act: PeerAct,
     }
 }
 
+/// The peer sends a close (with or without an error) where its open is due. The endpoint has
+/// sent its header and open by then, so the peer's close must be answered with a close before
+/// the endpoint ends the stream, and the open/accept call must fail.
+async fn peer_closes_instead_of_opening(peer: &mut Peer, with_error: bool) {
+    let err = if with_error { Some(peer::error("amqp:resource-limit-exceeded", Some("refused"))) } else { None };
+    peer.send(0, &peer::close(err)).await;
+    // give the endpoint time to answer, then end the stream whatever it did
+    let mut waited = 0;
+    while waited < 3000 && !peer.eof {
+        if peer.drain_for(100).await.iter().any(|f| f.code == wire::CLOSE && f.perf.is_some()) {
+            break;
+        }
+        waited += 100;
+    }
+    peer.shutdown().await;
+    let _ = peer.drain_for(500).await;
+}
+
+fn judge_close_instead_of_open(mon: &wire::MonitorRef, d: usize, opened: bool, result: String) {
+    if opened {
+        sim::violation("close-instead-of-open-accepted", "the peer sent a close where its open was due and the open/accept call succeeded".into());
+        return;
+    }
+    let mut m = mon.borrow_mut();
+    m.sync();
+    if m.ends[d].open.is_some() && m.ends[d].close.is_none() {
+        sim::violation(
+            "peer-close-not-answered",
+            format!("the peer sent a close where its open was due; the endpoint had sent its open and ended the stream without sending a close (call returned {})", result),
+        );
+    }
+}
+
 fn draw_peer_act() -> PeerAct {
     pick(&[
         PeerAct::Clean,
@@ -400,6 +433,30 @@ pub async fn run_client() {
     let mon = wire::install(&net, ["client", "peer"], [models(), Models::none()]);
     let mut peer = Peer::new("peer", ps);
     let peer_open = peer::open("peer", Some(pick(&[65536u32, 512])), Some(255), if heartbeat { Some(pick(&[300u32, 2000])) } else { None });
+    if choice(10) == 1 {
+        sim::fault("close-instead-of-open");
+        let with_error = choice(2) == 1;
+        let hs = async {
+            if choice(2) == 1 {
+                peer.send_header(AMQP_HEADER).await;
+                let _ = peer.expect_header().await;
+            } else {
+                let _ = peer.expect_header().await;
+                peer.send_header(AMQP_HEADER).await;
+            }
+            if choice(2) == 1 {
+                let _ = peer.expect(wire::OPEN).await;
+            }
+            peer_closes_instead_of_opening(&mut peer, with_error).await;
+        };
+        let (c, _) = match sim::op("open", world::join2(sim::in_group(1, world::client_open(&ccfg, cs)), hs)).await {
+            Some(x) => x,
+            None => return,
+        };
+        let res = format!("{:?}", c.as_ref().map(|_| ()));
+        judge_close_instead_of_open(&mon, 0, c.is_ok(), res);
+        return;
+    }
     let hs = async {
         if pipelined {
             // header and open in one go, before anything was read
@@ -501,6 +558,24 @@ pub async fn run_listener() {
                 "a begin arrived before the open; the listener closed the connection without an error condition".into(),
             );
         }
+        return;
+    }
+    if choice(10) == 1 {
+        sim::fault("close-instead-of-open");
+        let with_error = choice(2) == 1;
+        let hs = async {
+            peer.send_header(AMQP_HEADER).await;
+            if choice(2) == 1 {
+                let _ = peer.expect_header().await;
+            }
+            peer_closes_instead_of_opening(&mut peer, with_error).await;
+        };
+        let (l, _) = match sim::op("accept", world::join2(sim::in_group(2, acceptor.accept(ls)), hs)).await {
+            Some(x) => x,
+            None => return,
+        };
+        let res = format!("{:?}", l.as_ref().map(|_| ()));
+        judge_close_instead_of_open(&mon, 1, l.is_ok(), res);
         return;
     }
     let hs = async {
